@@ -118,8 +118,17 @@ private theorem decideImage_error_cls (req : Req) (opts : Opts) (fn : Option Str
     (m : Option String) (e : Exc) (h : decideImage req opts fn c m = .error e) :
     e.isImageLoading = true := by
   unfold decideImage at h
-  cases hx : c.xmlOk <;> cases hp : c.pillow <;> cases hm : (m == some "image/svg+xml") <;>
-    simp [hx, hp, hm] at h <;> (first | (rw [← h]; rfl) | skip)
+  cases hp : c.pillow with
+  | none =>
+    cases hx : c.xmlOk <;> cases hm : (m == some "image/svg+xml") <;>
+      simp [hx, hp, hm] at h <;> (first | (rw [← h]; rfl) | skip)
+  | some p =>
+    cases hr : rasterInit p req.orient fn opts with
+    | ok v =>
+      cases hx : c.xmlOk <;> cases hm : (m == some "image/svg+xml") <;> simp [hx, hp, hm, hr] at h
+    | error e' =>
+      cases hx : c.xmlOk <;> cases hm : (m == some "image/svg+xml") <;>
+        simp [hx, hp, hm, hr] at h <;> (rw [← h]; rfl)
 
 /- Full statement (false of the current code, see `Witness.C20.read_error_escapes`):
    `∀ cache fetcher opts req, ∃ v, (getImage cache fetcher opts req).2.2 = .ok v`. -/
@@ -130,7 +139,7 @@ theorem image_total_partial (cache : Cache) (fetcher : Fetcher) (opts : Opts) (r
     (h : Fetched.absorbed (fetcher req.url) = true) :
     ∃ v, (getImage cache fetcher opts req).2.2 = .ok v := by
   unfold getImage
-  cases hc : cache.find? req.key with
+  cases hc : cache.find? (req.key opts) with
   | some v => exact ⟨v, by simp⟩
   | none =>
     simp only
@@ -163,13 +172,13 @@ theorem image_total_partial (cache : Cache) (fetcher : Fetcher) (opts : Opts) (r
 
 example : Fetched.absorbed (.resp ⟨true, none, some "text/html", none, ⟨22, false, none, false, true, false⟩⟩) = true ∧
     (getImage [] (fun _ => .resp ⟨true, none, some "text/html", none, ⟨22, false, none, false, true, false⟩⟩)
-      ⟨false, false⟩ ⟨"http://a/x.png", .fromImage, none⟩).2.2 = .ok none := ⟨rfl, rfl⟩
+      ⟨false, none, none⟩ ⟨"http://a/x.png", .fromImage, none⟩).2.2 = .ok none := ⟨rfl, rfl⟩
 
 /-- `image_total`, fetcher side: a fetcher that raises — whatever the exception — gives `None`,
 which is cached under the request's key (the fetcher is not asked again). -/
 theorem image_fetch_failure_is_none (cache : Cache) (fetcher : Fetcher) (opts : Opts) (req : Req) (e : Exc)
-    (hmiss : cache.find? req.key = none) (h : fetcher req.url = .raises e) :
-    getImage cache fetcher opts req = ((req.key, none) :: cache, [.call req.url], .ok none) := by
+    (hmiss : cache.find? (req.key opts) = none) (h : fetcher req.url = .raises e) :
+    getImage cache fetcher opts req = (((req.key opts), none) :: cache, [.call req.url], .ok none) := by
   unfold getImage
   simp [hmiss, h, fetch, Exc.wrapFetch, Exc.isUrlFetching]
 
@@ -177,10 +186,10 @@ theorem image_fetch_failure_is_none (cache : Cache) (fetcher : Fetcher) (opts : 
 header, HTML, text, a font, …) give `None` under every MIME type, served as `string` or through a
 readable `file_obj`. -/
 theorem image_undecodable_is_none (cache : Cache) (fetcher : Fetcher) (opts : Opts) (req : Req) (r : Resp)
-    (hmiss : cache.find? req.key = none) (h : fetcher req.url = .resp r)
+    (hmiss : cache.find? (req.key opts) = none) (h : fetcher req.url = .resp r)
     (habs : Fetched.absorbed (.resp r) = true) (hp : r.content.pillow = none) (hx : r.content.xmlOk = false) :
     (getImage cache fetcher opts req).2.2 = .ok none ∧
-    (getImage cache fetcher opts req).1 = (req.key, none) :: cache := by
+    (getImage cache fetcher opts req).1 = ((req.key opts), none) :: cache := by
   have hread : readAll (r.withDefaults req.url) = .ok r.content := readAll_ok_of_absorbed r habs
   have hbody : (fetch (.resp r) req.url (imageBody req)).2 =
       imageBody req (r.withDefaults req.url) := (fetch_funnel_body r req.url (imageBody req)).1
@@ -200,7 +209,7 @@ theorem image_undecodable_is_none (cache : Cache) (fetcher : Fetcher) (opts : Op
 nor `file_obj` (`KeyError`), a `file_obj` whose `read()` raises anything but the two caught classes
 (that very exception). -/
 theorem image_escapes (cache : Cache) (fetcher : Fetcher) (opts : Opts) (req : Req)
-    (hmiss : cache.find? req.key = none) :
+    (hmiss : cache.find? (req.key opts) = none) :
     (fetcher req.url = .notDict → ∃ m, (getImage cache fetcher opts req).2.2 = .error ⟨"AttributeError", m⟩) ∧
     (∀ r, fetcher req.url = .resp r → r.hasString = false → r.fileObj = none →
       (getImage cache fetcher opts req).2.2 = .error ⟨"KeyError", "'file_obj'"⟩) ∧
@@ -219,7 +228,7 @@ theorem image_escapes (cache : Cache) (fetcher : Fetcher) (opts : Opts) (req : R
       simp [getImage, hmiss, hf, fetch, hfo, hc, imageBody, readAll, Resp.withDefaults, hs, hr, hcls]
 
 example : ∃ e, (getImage [] (fun _ => .resp ⟨false, some ⟨some ⟨"OSError", "reset"⟩, false⟩, none, none,
-      ⟨1, false, some ⟨"PNG", "RGB", false, false⟩, false, true, false⟩⟩) ⟨false, false⟩
+      ⟨1, false, some ⟨"PNG", "RGB", false, false, true⟩, false, true, false⟩⟩) ⟨false, none, none⟩
       ⟨"http://a/x.png", .fromImage, none⟩).2.2 = .error e := ⟨_, rfl⟩
 
 /-! ### the cache: one fetch per (URL, orientation), failures included -/
@@ -231,7 +240,7 @@ private theorem find_cons_self (c : Cache) (k : String) (v : Option Img) :
 /-- A cache hit calls nothing and returns the cached value (an image, or the `None` of an earlier
 failure). -/
 theorem image_cache_hit (cache : Cache) (fetcher : Fetcher) (opts : Opts) (req : Req) (v : Option Img)
-    (h : cache.find? req.key = some v) :
+    (h : cache.find? (req.key opts) = some v) :
     getImage cache fetcher opts req = (cache, [], .ok v) := by
   simp [getImage, h]
 
@@ -243,7 +252,7 @@ theorem image_fetched_at_most_once (cache : Cache) (fetcher : Fetcher) (opts : O
       ((getImage cache fetcher opts req).1, [], .ok v) := by
   apply image_cache_hit
   unfold getImage at h ⊢
-  cases hc : cache.find? req.key with
+  cases hc : cache.find? (req.key opts) with
   | some w =>
     simp [hc] at h ⊢
     rw [← h]
@@ -290,12 +299,13 @@ theorem image_depends_on_fetcher_at_url (cache : Cache) (f g : Fetcher) (opts : 
   simp [getImage, h]
 
 /-- … and so does any sequence of calls sharing a cache. -/
-theorem images_depend_on_fetcher_at_urls (f g : Fetcher) (opts : Opts) (reqs : List Req) (cache : Cache)
-    (h : ∀ r ∈ reqs, f r.url = g r.url) : runImages f opts cache reqs = runImages g opts cache reqs := by
+theorem images_depend_on_fetcher_at_urls (f g : Fetcher) (reqs : List (Opts × Req)) (cache : Cache)
+    (h : ∀ r ∈ reqs, f r.2.url = g r.2.url) : runImages f cache reqs = runImages g cache reqs := by
   induction reqs generalizing cache with
   | nil => rfl
   | cons r rest ih =>
-    have h1 := image_depends_on_fetcher_at_url cache f g opts r (h r (by simp))
+    obtain ⟨opts, req⟩ := r
+    have h1 := image_depends_on_fetcher_at_url cache f g opts req (h (opts, req) (by simp))
     simp only [runImages, h1]
     rw [ih _ (fun r' hr' => h r' (by simp [hr']))]
 
@@ -303,7 +313,7 @@ theorem images_depend_on_fetcher_at_urls (f g : Fetcher) (opts : Opts) (reqs : L
 theorem image_calls_only_requested (cache : Cache) (fetcher : Fetcher) (opts : Opts) (req : Req) (u : String)
     (h : Ev.call u ∈ (getImage cache fetcher opts req).2.1) : u = req.url := by
   unfold getImage at h
-  cases hc : cache.find? req.key with
+  cases hc : cache.find? (req.key opts) with
   | some v => simp [hc] at h
   | none =>
     simp only [hc] at h
@@ -825,11 +835,11 @@ theorem find_stylesheets_total_partial (d : String) (els : List StyleEl)
 /-! ## (d) the bytes embedded are the bytes the fetcher returned -/
 
 /-- Without a local file name, `RasterImage` keeps its data in memory. -/
-theorem raster_without_filename_in_memory (p : Pil) (o : Orient) (opts : Opts) :
-    (rasterInit p o none opts).2 = .memOriginal ∨ (rasterInit p o none opts).2 = .memReencoded := by
-  unfold rasterInit
-  simp only [cacheImageData]
-  split <;> split <;> simp
+theorem raster_without_filename_in_memory (p : Pil) (o : Orient) (opts : Opts) (fmt : String) (src : Src)
+    (h : rasterInit p o none opts = .ok (fmt, src)) : src = .memOriginal ∨ src = .memReencoded := by
+  unfold rasterInit at h
+  simp only [ite_self, cacheImageData] at h
+  split at h <;> split at h <;> (try split at h) <;> simp at h <;> simp [← h.2]
 
 /-- What `decide_image` builds from content `c` with no file name reads nothing from disk and embeds
 `c`'s bytes, as they are or re-encoded by Pillow. -/
@@ -841,15 +851,25 @@ private theorem decideImage_no_filename (req : Req) (opts : Opts) (c : Content) 
       (dataAtWrite fs i = .ok (.fetched c.id) ∨ dataAtWrite fs i = .ok (.reencodedFrom c.id)) ∧
       opensAtWrite i = [] := by
     intro i hi; subst hi; simp [dataAtWrite, opensAtWrite]
-  have hraster : ∀ p i, Img.raster (rasterInit p req.orient none opts).1 (rasterInit p req.orient none opts).2 c.id = i →
+  have hraster : ∀ p fmt src i, rasterInit p req.orient none opts = .ok (fmt, src) → Img.raster fmt src c.id = i →
       (dataAtWrite fs i = .ok (.fetched c.id) ∨ dataAtWrite fs i = .ok (.reencodedFrom c.id)) ∧
       opensAtWrite i = [] := by
-    intro p i hi; subst hi
-    rcases raster_without_filename_in_memory p req.orient opts with hs | hs <;>
+    intro p fmt src i hr hi; subst hi
+    rcases raster_without_filename_in_memory p req.orient opts fmt src hr with hs | hs <;>
       simp [dataAtWrite, opensAtWrite, hs]
   unfold decideImage at h
-  cases hx : c.xmlOk <;> cases hp : c.pillow <;> cases hm : (m == some "image/svg+xml") <;>
-    simp [hx, hp, hm] at h <;> first | exact hsvg _ h | exact hraster _ _ h
+  cases hp : c.pillow with
+  | none =>
+    cases hx : c.xmlOk <;> cases hm : (m == some "image/svg+xml") <;>
+      simp [hx, hp, hm] at h <;> exact hsvg _ h
+  | some p =>
+    cases hr : rasterInit p req.orient none opts with
+    | error e =>
+      cases hx : c.xmlOk <;> cases hm : (m == some "image/svg+xml") <;> simp [hx, hp, hm, hr] at h <;> exact hsvg _ h
+    | ok v =>
+      obtain ⟨fmt, src⟩ := v
+      cases hx : c.xmlOk <;> cases hm : (m == some "image/svg+xml") <;>
+        simp [hx, hp, hm, hr] at h <;> first | exact hsvg _ h | exact hraster _ _ _ _ hr h
 
 private theorem readAll_ok_content (r : Resp) (c : Content) (h : readAll r = .ok c) : c = r.content := by
   unfold readAll at h
@@ -911,7 +931,7 @@ theorem bytes_from_fetcher_partial (fetcher : Fetcher) (opts : Opts) (req : Req)
         exact decideImage_no_filename req opts r.content _ img' hd fs
 
 example : (getImage [] (fun _ => .resp ⟨true, none, some "image/png", none,
-      ⟨1, false, some ⟨"PNG", "RGB", false, false⟩, false, true, false⟩⟩) ⟨false, false⟩
+      ⟨1, false, some ⟨"PNG", "RGB", false, false, true⟩, false, true, false⟩⟩) ⟨false, none, none⟩
       ⟨"http://a/x.png", .fromImage, none⟩).2.2 = .ok (some (.raster "PNG" .memOriginal 1)) := rfl
 
 /-- SVG images, re-encoded rasters and in-memory rasters never read the file system, under any URL. -/
@@ -938,13 +958,13 @@ private theorem getImage_keeps_in_memory (cache : Cache) (fetcher : Fetcher) (op
     (hc : cacheInMemory cache) (hn : notFileLocation fetcher req.url) :
     cacheInMemory (getImage cache fetcher opts req).1 := by
   have extend : ∀ v : Option Img, (∀ img, v = some img → opensAtWrite img = []) →
-      cacheInMemory ((req.key, v) :: cache) := by
+      cacheInMemory (((req.key opts), v) :: cache) := by
     intro v hv k img hmem
     simp only [List.mem_cons, Prod.mk.injEq] at hmem
     rcases hmem with ⟨_, h2⟩ | hmem
     · exact hv img h2.symm
     · exact hc k img hmem
-  cases hfind : cache.find? req.key with
+  cases hfind : cache.find? (req.key opts) with
   | some v => rw [image_cache_hit cache fetcher opts req v hfind]; exact hc
   | none =>
     cases hf : fetcher req.url with
@@ -1023,29 +1043,36 @@ private theorem runRefs_total (fetcher : Fetcher) (opts : Opts) (refs : List Doc
             subst hv
             simpa using ih cache' hkeep hrest
 
-private theorem drawSvg_keeps_in_memory (fetcher : Fetcher) (opts : Opts) (items : List Doc.SvgItem) (cache : Cache)
-    (hc : cacheInMemory cache)
-    (h : ∀ u, Doc.SvgItem.image u ∈ items → notFileLocation fetcher (u.getD "None")) :
-    cacheInMemory (Doc.drawSvg fetcher opts cache items).1 := by
+private theorem drawItems_keeps_in_memory (fetcher : Fetcher) (opts : Opts) (deeper : Cache → String → Nat → Svg.DrawOut)
+    (hdeeper : ∀ cache key c, cacheInMemory cache → cacheInMemory (deeper cache key c).1)
+    (items : List Doc.SvgItem) (cache : Cache) (hc : cacheInMemory cache)
+    (h : ∀ u, Doc.SvgItem.image (some u) ∈ items → notFileLocation fetcher u) :
+    cacheInMemory (Svg.drawItems fetcher opts deeper cache items).1 := by
   induction items generalizing cache with
   | nil => exact hc
   | cons it rest ih =>
-    have hrest : ∀ u, Doc.SvgItem.image u ∈ rest → notFileLocation fetcher (u.getD "None") :=
+    have hrest : ∀ u, Doc.SvgItem.image (some u) ∈ rest → notFileLocation fetcher u :=
       fun u hu => h u (by simp [hu])
     cases it with
-    | useExternal u => simp only [Doc.drawSvg]; exact ih cache hc hrest
+    | useExternal u => simp only [Svg.drawItems]; exact ih cache hc hrest
     | image url =>
-      simp only [Doc.drawSvg]
-      have hkeep := getImage_keeps_in_memory cache fetcher opts ⟨url.getD "None", .fromImage, some "image/*"⟩ hc
-        (h url (by simp))
-      cases hg : getImage cache fetcher opts ⟨url.getD "None", .fromImage, some "image/*"⟩ with
-      | mk cache' r =>
-        cases r with
-        | mk evs out =>
-          rw [hg] at hkeep
-          cases out with
-          | error e => exact hkeep
-          | ok v => exact ih cache' hkeep hrest
+      cases url with
+      | none => simp only [Svg.drawItems]; exact ih cache hc hrest
+      | some url =>
+        simp only [Svg.drawItems]
+        split
+        · exact ih cache hc hrest
+        · have hkeep := getImage_keeps_in_memory cache fetcher opts ⟨url, .fromImage, some "image/*"⟩ hc
+            (h url (by simp))
+          split
+          · rename_i c' evs e hg
+            rw [hg] at hkeep; exact hkeep
+          · rename_i c' evs c hg
+            rw [hg] at hkeep
+            exact ih _ (hdeeper _ _ _ hkeep) hrest
+          · rename_i c' evs v hne hg
+            rw [hg] at hkeep
+            exact ih _ hkeep hrest
 
 private theorem lookup_mem {α} (l : List (Nat × α)) (k : Nat) (v : α) (h : l.lookup k = some v) : (k, v) ∈ l := by
   induction l with
@@ -1059,19 +1086,32 @@ private theorem lookup_mem {α} (l : List (Nat × α)) (k : Nat) (v : α) (h : l
       cases h; subst this; simp
     · exact List.mem_cons_of_mem _ (ih h)
 
+private theorem drawObject_keeps_in_memory (fetcher : Fetcher) (opts : Opts) (info : List (Nat × List Doc.SvgItem))
+    (h : ∀ e ∈ info, ∀ u, Doc.SvgItem.image (some u) ∈ e.2 → notFileLocation fetcher u)
+    (fuel : Nat) (drawing : List String) (cache : Cache) (key : String) (c : Nat) (hc : cacheInMemory cache) :
+    cacheInMemory (Svg.drawObject fetcher opts info fuel drawing cache key c).1 := by
+  induction fuel generalizing drawing cache key c with
+  | zero => exact hc
+  | succ fuel ih =>
+    simp only [Svg.drawObject]
+    split
+    · exact hc
+    · apply drawItems_keeps_in_memory fetcher opts _ (fun cache' key' c' hc' => ih _ cache' key' c' hc') _ cache hc
+      cases hl : info.lookup c with
+      | none => intro u hu; simp at hu
+      | some items => exact h (c, items) (lookup_mem info c items hl)
+
 private theorem paintSvgs_keeps_in_memory (fetcher : Fetcher) (opts : Opts) (info : List (Nat × List Doc.SvgItem))
-    (cs : List Nat) (cache : Cache) (hc : cacheInMemory cache)
-    (h : ∀ e ∈ info, ∀ u, Doc.SvgItem.image u ∈ e.2 → notFileLocation fetcher (u.getD "None")) :
+    (cs : List (String × Nat)) (cache : Cache) (hc : cacheInMemory cache)
+    (h : ∀ e ∈ info, ∀ u, Doc.SvgItem.image (some u) ∈ e.2 → notFileLocation fetcher u) :
     cacheInMemory (Doc.paintSvgs fetcher opts info cache cs).1 := by
   induction cs generalizing cache with
   | nil => exact hc
   | cons c rest ih =>
+    obtain ⟨key, c⟩ := c
     simp only [Doc.paintSvgs]
     apply ih
-    apply drawSvg_keeps_in_memory _ _ _ _ hc
-    cases hl : info.lookup c with
-    | none => intro u hu; simp at hu
-    | some items => exact h (c, items) (lookup_mem info c items hl)
+    exact drawObject_keeps_in_memory fetcher opts info h _ _ cache key c hc
 
 private theorem localPaths_nil (cache : Cache) (fmt : String) (h : cacheInMemory cache) :
     Doc.localPaths cache fmt = [] := by
@@ -1165,7 +1205,7 @@ structure PlainDocument (d : Doc.Document) : Prop where
   images : ∀ r ∈ d.images, ∀ u, r.url = some u → Fetched.absorbed (d.fetcher u) = true ∧ notFileLocation d.fetcher u
   metas : ∀ u ∈ d.metaAttachments, Fetched.absorbed (d.fetcher u) = true
   annots : ∀ u ∈ d.annotAttachments, Fetched.absorbed (d.fetcher u) = true
-  svgs : ∀ e ∈ d.svgInfo, ∀ u, Doc.SvgItem.image u ∈ e.2 → notFileLocation d.fetcher (u.getD "None")
+  svgs : ∀ e ∈ d.svgInfo, ∀ u, Doc.SvgItem.image (some u) ∈ e.2 → notFileLocation d.fetcher u
 
 /-- `failure degrades gracefully`, whole pipeline: on a plain document — whatever subset of its
 fetches fails and in whatever mode (exception, empty, truncated, wrong type, HTML) — `render` and
@@ -1202,7 +1242,7 @@ theorem document_completes_partial (d : Doc.Document) (h : PlainDocument d) :
         subst has
         simp only
         have hmem := paintSvgs_keeps_in_memory d.fetcher d.opts d.svgInfo
-          (d.images.filterMap (Doc.svgOfRef cache)) cache hmem h.svgs
+          (d.images.filterMap (Doc.svgOfRef d.opts cache)) cache hmem h.svgs
         cases hm : metadataAttachments d.fetcher d.metaAttachments with
         | mk evs' mout =>
           rw [hm] at hms
@@ -1219,11 +1259,11 @@ def failingDocument : Doc.Document where
              ⟨false, none, none, none, none, none,
               [.importRule (some "http://a.test/i.css") (some ["all"]) (.mk (.raises ⟨"TimeoutError", ""⟩) [.rule 2]),
                .fontFace true ⟨1, [.external (some "http://a.test/f.woff")]⟩, .rule 3], .mk .notDict []⟩]
-  images := [⟨.img, some "http://a.test/x.png", some "ALT", .fromImage, none⟩]
+  images := [⟨.img, some "http://a.test/x.png", some "ALT", .fromImage, none, none⟩]
   metaAttachments := ["http://a.test/a.bin"]
   annotAttachments := []
   fetcher := fun _ => .raises ⟨"OSError", "reset"⟩
-  opts := ⟨false, false⟩
+  opts := ⟨false, none, none⟩
   fs := fun _ => none
 
 example : PlainDocument failingDocument := by
@@ -1343,5 +1383,46 @@ def fetchWhitelist : List (String × String × String) := [
   ("urls.py", "fetch", "url_fetcher")]
 
 theorem fetch_sites_exact : Gen.fetchSites = fetchWhitelist := by decide +kernel
+
+/-! ### which exceptions each loader absorbs: the `except` clauses of the source, regenerated each run -/
+
+/-- The functions whose `try` statements the models mirror. -/
+def loaderScopes : List String := ["fetch", "get_image_from_uri", "SVGImage.draw", "find_stylesheets", "preprocess_stylesheet",
+  "FontConfiguration.add_font_face", "get_use_tree", "write_pdf_attachment", "handle_svg"]
+
+/-- The `except` clauses of the loaders, in source order, and the model branch that mirrors each. -/
+def handlerWhitelist : List (String × String × String) := [
+  -- `try: CSS(url=…) except URLFetchingError` around a `<link>`: `Out.absorbFetchError` in `runStyleEl`
+  ("css/__init__.py", "find_stylesheets", "URLFetchingError"),
+  -- invalid selector (not a fetch); then `@import`: `absorbFetchError` in `runItems`
+  ("css/__init__.py", "preprocess_stylesheet", "cssselect2.SelectorError"),
+  ("css/__init__.py", "preprocess_stylesheet", "URLFetchingError"),
+  -- inline `<svg>`: whatever building the image raises is logged, no box
+  ("html.py", "handle_svg", "Exception"),
+  -- `SVGImage.draw`: everything raised while drawing is swallowed, the `_drawing` flag reset (`drawSvg`, error branch)
+  ("images.py", "SVGImage.draw", "BaseException +finally"),
+  -- `getImage`: `e.isUrlFetching || e.isImageLoading`; the four inner ones re-raise as `ImageLoadingError` (`decideImage`)
+  ("images.py", "get_image_from_uri", "(URLFetchingError, ImageLoadingError)"),
+  ("images.py", "get_image_from_uri", "Exception"),
+  ("images.py", "get_image_from_uri", "Exception"),
+  ("images.py", "get_image_from_uri", "Exception"),
+  ("images.py", "get_image_from_uri", "Exception"),
+  -- `writeAttachment`: `e.isUrlFetching`
+  ("pdf/anchors.py", "write_pdf_attachment", "URLFetchingError"),
+  -- local `<use>` target missing; external `<use>`: fetch + parse failures give no tree (`drawSvg`, `useExternal`)
+  ("svg/defs.py", "get_use_tree", "Exception"),
+  ("svg/defs.py", "get_use_tree", "Exception"),
+  -- `fontLoop`: `except Exception: continue` around the fetch, and around the WOFF decoding
+  ("text/fonts.py", "FontConfiguration.add_font_face", "Exception"),
+  ("text/fonts.py", "FontConfiguration.add_font_face", "Exception"),
+  -- `fetch`: the fetcher call (→ `URLFetchingError`), the `with` body (`finally`: close), `file_obj.close()` (warning)
+  ("urls.py", "fetch", "Exception"),
+  ("urls.py", "fetch", " +finally"),
+  ("urls.py", "fetch", "Exception")]
+
+/-- The exception classes the loaders absorb are exactly those the models absorb: narrowing an `except` clause (a
+failure mode then aborts the render) or widening one changes this list and breaks the proof. -/
+theorem loader_handlers_exact :
+    Gen.handlerSites.filter (fun s => loaderScopes.contains s.2.1) = handlerWhitelist := by decide +kernel
 
 end Wp.C20
